@@ -2,7 +2,10 @@ package main
 
 import (
 	"fmt"
+	"go/constant"
 	"go/token"
+	"go/types"
+	"math"
 	"sort"
 	"strings"
 
@@ -70,30 +73,7 @@ func init() {
 		for _, a := range splitList(s.Args["allow"]) {
 			allow[a] = true
 		}
-		// package-level variables written outside initialisers (anywhere in the repository)
-		written := map[*ssa.Global]string{}
-		for fn := range ssautil.AllFunctions(eng.prog) {
-			if !eng.inRepo(fn) || fn.Blocks == nil || fn.Name() == "init" || strings.HasPrefix(fn.Name(), "init#") {
-				continue
-			}
-			if fn.Synthetic != "" && strings.Contains(fn.Synthetic, "package initializer") {
-				continue
-			}
-			for _, b := range fn.Blocks {
-				for _, in := range b.Instrs {
-					if st, ok := in.(*ssa.Store); ok {
-						if g, ok := rootGlobal(st.Addr); ok {
-							written[g] = fnDisplayName(fn)
-						}
-					}
-					if mu, ok := in.(*ssa.MapUpdate); ok {
-						if g, ok := rootGlobal(mu.Map); ok {
-							written[g] = fnDisplayName(fn)
-						}
-					}
-				}
-			}
-		}
+		written := runtimeWrittenGlobals(eng)
 		var list []*ssa.Function
 		for fn := range fns {
 			list = append(list, fn)
@@ -147,6 +127,33 @@ func init() {
 	}
 }
 
+// resolveNaive looks through the load-of-a-once-stored-temporary pattern of unlifted SSA.
+func resolveNaive(v ssa.Value) ssa.Value {
+	for i := 0; i < 8; i++ {
+		u, ok := v.(*ssa.UnOp)
+		if !ok || u.Op != token.MUL {
+			return v
+		}
+		al, ok := u.X.(*ssa.Alloc)
+		if !ok || al.Referrers() == nil {
+			return v
+		}
+		var stored ssa.Value
+		n := 0
+		for _, r := range *al.Referrers() {
+			if st, ok := r.(*ssa.Store); ok && st.Addr == ssa.Value(al) {
+				stored = st.Val
+				n++
+			}
+		}
+		if n != 1 {
+			return v
+		}
+		v = stored
+	}
+	return v
+}
+
 func rootGlobal(v ssa.Value) (*ssa.Global, bool) {
 	for i := 0; i < 8; i++ {
 		switch x := v.(type) {
@@ -161,9 +168,151 @@ func rootGlobal(v ssa.Value) (*ssa.Global, bool) {
 				return nil, false
 			}
 			v = x.X
+		case *ssa.Lookup:
+			v = x.X
+		case *ssa.Extract:
+			v = x.Tuple
 		default:
 			return nil, false
 		}
 	}
 	return nil, false
+}
+
+// runtimeWrittenGlobals: package-level variables assigned (directly, through a field / element
+// address, or by a map update reached through lookups) outside package initialisers.
+func runtimeWrittenGlobals(eng *Engine) map[*ssa.Global]string {
+	written := map[*ssa.Global]string{}
+	for fn := range ssautil.AllFunctions(eng.prog) {
+		if !eng.inRepo(fn) || fn.Blocks == nil || fn.Name() == "init" || strings.HasPrefix(fn.Name(), "init#") {
+			continue
+		}
+		if fn.Synthetic != "" && strings.Contains(fn.Synthetic, "package initializer") {
+			continue
+		}
+		for _, b := range fn.Blocks {
+			for _, in := range b.Instrs {
+				if st, ok := in.(*ssa.Store); ok {
+					if g, ok := rootGlobal(st.Addr); ok {
+						written[g] = fnDisplayName(fn)
+					}
+				}
+				if mu, ok := in.(*ssa.MapUpdate); ok {
+					if g, ok := rootGlobal(mu.Map); ok {
+						written[g] = fnDisplayName(fn)
+					}
+				}
+				if c, ok := in.(ssa.CallInstruction); ok {
+					if bi, ok := c.Common().Value.(*ssa.Builtin); ok && (bi.Name() == "delete" || bi.Name() == "clear") && len(c.Common().Args) > 0 {
+						if g, ok := rootGlobal(c.Common().Args[0]); ok {
+							written[g] = fnDisplayName(fn)
+						}
+					}
+				}
+			}
+		}
+	}
+	return written
+}
+
+// static kind "init-table": args.global = pkg::name of a package-level map (possibly of maps)
+// of float values built by a composite literal; args.min = lower bound. Obligations: (1) every
+// value the package initialiser stores into the table (at any nesting depth) is a constant
+// >= min, and the initialiser stores nothing else into it; (2) nothing assigns the table or
+// its entries after initialisation. Justifies the axiom that states the bound at function entry.
+func init() {
+	staticKinds["init-table"] = func(eng *Engine, id string, s StaticSpec) ([]*StaticResult, []string) {
+		name := s.Args["global"]
+		i := strings.Index(name, "::")
+		if i < 0 {
+			return nil, []string{"init-table: global must be pkg::name"}
+		}
+		var min float64
+		fmt.Sscanf(s.Args["min"], "%g", &min)
+		var pkg *ssa.Package
+		for _, p := range eng.prog.AllPackages() {
+			if p.Pkg.Path() == modulePath+"/internal/"+name[:i] || (pkg == nil && p.Pkg.Path() == name[:i]) {
+				pkg = p
+			}
+		}
+		if pkg == nil {
+			return nil, []string{"init-table: package not found: " + name[:i]}
+		}
+		g, ok := pkg.Members[name[i+2:]].(*ssa.Global)
+		if !ok {
+			return nil, []string{"init-table: no package variable " + name}
+		}
+		initFn := pkg.Func("init")
+		// maps that belong to the table: the map stored into the global, and maps stored as values into those
+		table := map[ssa.Value]bool{}
+		var bad []string
+		n := 0
+		changed := true
+		for changed {
+			changed = false
+			for _, b := range initFn.Blocks {
+				for _, in := range b.Instrs {
+					switch v := in.(type) {
+					case *ssa.Store:
+						if val := resolveNaive(v.Val); v.Addr == ssa.Value(g) && !table[val] {
+							table[val] = true
+							changed = true
+						}
+					case *ssa.MapUpdate:
+						if table[resolveNaive(v.Map)] {
+							if val := resolveNaive(v.Value); !table[val] {
+								if _, isMap := val.Type().Underlying().(*types.Map); isMap {
+									table[val] = true
+									changed = true
+								}
+							}
+						}
+					}
+				}
+			}
+		}
+		for _, b := range initFn.Blocks {
+			for _, in := range b.Instrs {
+				mu, ok := in.(*ssa.MapUpdate)
+				if !ok || !table[resolveNaive(mu.Map)] {
+					continue
+				}
+				muValue := resolveNaive(mu.Value)
+				if _, isMap := muValue.Type().Underlying().(*types.Map); isMap {
+					if _, isMake := muValue.(*ssa.MakeMap); !isMake {
+						bad = append(bad, fmt.Sprintf("entry at %s is not a map literal", shortPos(eng.fset.Position(mu.Pos()).String())))
+					}
+					continue
+				}
+				c, isConst := muValue.(*ssa.Const)
+				if !isConst || c.Value == nil {
+					bad = append(bad, fmt.Sprintf("value stored at %s is not a constant", shortPos(eng.fset.Position(mu.Pos()).String())))
+					continue
+				}
+				f, _ := constant.Float64Val(constant.ToFloat(c.Value))
+				n++
+				if !(f >= min) || math.IsInf(f, 0) || math.IsNaN(f) {
+					bad = append(bad, fmt.Sprintf("value %v stored at %s is below %v or not finite", f, shortPos(eng.fset.Position(mu.Pos()).String()), min))
+				}
+			}
+		}
+		for v := range table {
+			if _, isMake := v.(*ssa.MakeMap); !isMake {
+				bad = append(bad, "the table is not built from map literals")
+			}
+		}
+		if n == 0 {
+			bad = append(bad, "no table entries found in the package initialiser")
+		}
+		sort.Strings(bad)
+		r1 := &StaticResult{Name: fmt.Sprintf("init-table %s / values >= %v", name, min), Kind: "init-table",
+			Text: fmt.Sprintf("every value the package initialiser stores into %s (%d entries) is a finite constant >= %v", name, n, min), OK: len(bad) == 0, Detail: strings.Join(bad, "; ")}
+		w, isW := runtimeWrittenGlobals(eng)[g]
+		r2 := &StaticResult{Name: fmt.Sprintf("init-table %s / never assigned after initialisation", name), Kind: "init-table",
+			Text: "no function assigns the table, or an entry reached through it, after package initialisation", OK: !isW}
+		if isW {
+			r2.Detail = "assigned by " + w
+		}
+		return []*StaticResult{r1, r2}, nil
+	}
 }
